@@ -3,7 +3,7 @@ From Coq Require Import ZArith List Bool Lia Arith.
 From Val Require Import Model.Flag.
 Import ListNotations.
 
-(* the flag state mirrors the stack of open blocks as long as no block was left by exception *)
+(* the flag state mirrors the stack of open blocks *)
 Fixpoint rel (v : bool) (stk : list (option bool)) (st : list bool) : Prop :=
   match stk, st with
   | [], [] => v = true
@@ -22,52 +22,34 @@ Proof.
     + cbn [existsb orb]. now apply IH.
 Qed.
 
-Lemma run_rel : forall t s st st', rel (fvar s) (fstack s) st -> no_exit_exc t = true ->
+Lemma exit_rel : forall s b st0 e, (e = ExitNormal \/ e = ExitExc) ->
+  rel (fvar s) (fstack s) (b :: st0) -> rel (fvar (fstep s e)) (fstack (fstep s e)) st0.
+Proof.
+  intros [v stk] b st0 e He HR. cbn [fvar fstack] in HR.
+  destruct stk as [|tk r]; cbn [rel] in HR; [contradiction|].
+  destruct tk as [old|]; destruct b; try contradiction; destruct He as [-> | ->]; cbn [fstep fvar fstack]; tauto.
+Qed.
+
+Lemma run_rel : forall t s st st', rel (fvar s) (fstack s) st ->
   open_blocks st t = Some st' -> rel (fvar (frun_from s t)) (fstack (frun_from s t)) st'.
 Proof.
-  induction t as [|e t IH]; intros s st st' HR Hn Ho; cbn [frun_from fold_left] in *.
+  induction t as [|e t IH]; intros s st st' HR Ho; cbn [frun_from fold_left] in *.
   - cbn [open_blocks] in Ho. inversion Ho; subst. exact HR.
-  - cbn [no_exit_exc forallb] in Hn. apply andb_true_iff in Hn as [He Hn]. cbn [open_blocks] in Ho.
-    destruct e as [ig| |]; try discriminate.
-    + (* Enter *) apply (IH (fstep s (Enter ig)) (negb ig :: st) st'); auto.
+  - cbn [open_blocks] in Ho. destruct e as [ig| |].
+    + apply (IH (fstep s (Enter ig)) (negb ig :: st) st'); auto.
       destruct ig; cbn [fstep fvar fstack negb rel]; auto.
-    + (* ExitNormal *) destruct st as [|b st0]; [discriminate|].
-      apply (IH (fstep s ExitNormal) st0 st'); auto.
-      destruct s as [v stk]. cbn [fvar fstack] in HR. destruct stk as [|tk r]; cbn [rel] in HR; [contradiction|].
-      destruct tk as [old|]; destruct b; try contradiction; cbn [fstep fvar fstack].
-      * tauto.
-      * exact HR.
+    + destruct st as [|b st0]; [discriminate|]. apply (IH (fstep s ExitNormal) st0 st'); auto.
+      eapply exit_rel; eauto.
+    + destruct st as [|b st0]; [discriminate|]. apply (IH (fstep s ExitExc) st0 st'); auto.
+      eapply exit_rel; eauto.
 Qed.
 
-Theorem flag_partial : forall t, well_nested t = true -> no_exit_exc t = true -> enabled t = spec_enabled t.
+(* validation is on exactly when no disabling block is open - however the blocks were left *)
+Theorem flag_correct : forall t, well_nested t = true -> enabled t = spec_enabled t.
 Proof.
-  intros t Hw Hn. unfold well_nested in Hw. unfold enabled, spec_enabled, frun.
+  intros t Hw. unfold well_nested in Hw. unfold enabled, spec_enabled, frun.
   destruct (open_blocks [] t) as [st'|] eqn:Eo; [|discriminate].
   apply (rel_var (fstack (frun_from finit t)) st'). eapply run_rel; eauto. reflexivity.
-Qed.
-
-(* once the variable is False with only "restore False" tokens pending, it stays False forever *)
-Definition stuck (s : fstate) : Prop :=
-  fvar s = false /\ Forall (fun tk => tk = None \/ tk = Some false) (fstack s).
-
-Lemma stuck_step : forall s e, stuck s -> stuck (fstep s e).
-Proof.
-  intros [v stk] e [Hv Hs]. cbn [fvar fstack] in *. subst v.
-  destruct e as [ig| |]; cbn [fstep fvar fstack].
-  - destruct ig; split; cbn [fvar fstack]; auto.
-  - destruct stk as [|tk r]; [split; auto|]. inversion Hs as [|? ? Ht Hr]; subst.
-    destruct tk as [old|]; split; cbn [fvar fstack]; auto. destruct Ht as [Ht|Ht]; [discriminate|]. now inversion Ht.
-  - destruct stk as [|tk r]; [split; auto|]. inversion Hs; subst. split; auto.
-Qed.
-
-Lemma stuck_run : forall t s, stuck s -> stuck (frun_from s t).
-Proof. induction t; intros s H; cbn [frun_from fold_left]; [exact H|]. apply IHt. now apply stuck_step. Qed.
-
-Theorem flag_stuck_off : forall t, enabled ([Enter false; ExitExc] ++ t) = false.
-Proof.
-  intros t. unfold enabled, frun, frun_from. rewrite fold_left_app. cbn [fold_left fstep finit fvar fstack].
-  assert (Hs : stuck (mkF false [])) by (split; [reflexivity|constructor]).
-  destruct (stuck_run t (mkF false []) Hs) as [H _]. exact H.
 Qed.
 
 (* a thread's observations are a function of its own events only *)
